@@ -29,9 +29,9 @@ class World:
         w = self
 
         if is_async:
-            async def work(inp, mark, store, acc=[], opts={"k": []}):          # noqa: B006 - mutable defaults on purpose
-                w.keep += [inp, store, acc, opts]
-                w.records[mark] = {"acc_id": id(acc), "opts_id": id(opts), "store_id": id(store), "inp_id": id(inp)}
+            async def work(inp, mark, store, acc=[], opts={"k": []}, aux=None, aux2=None):          # noqa: B006 - mutable defaults on purpose
+                w.keep += [inp, store, acc, opts, aux, aux2]
+                w.records[mark] = {"acc_id": id(acc), "opts_id": id(opts), "store_id": id(store), "inp_id": id(inp), "aux_id": id(aux), "aux2_id": id(aux2)}
                 await w.gate(mark, "resolved")
                 acc.append(mark)
                 opts["k"].append(mark)
@@ -41,9 +41,9 @@ class World:
                 w.records[mark]["seen"] = (list(acc), {k: list(v) for k, v in opts.items()})
                 return (tuple(acc), tuple(opts["k"]))
         else:
-            def work(inp, mark, store, acc=[], opts={"k": []}):                # noqa: B006
-                w.keep += [inp, store, acc, opts]
-                w.records[mark] = {"acc_id": id(acc), "opts_id": id(opts), "store_id": id(store), "inp_id": id(inp)}
+            def work(inp, mark, store, acc=[], opts={"k": []}, aux=None, aux2=None):                # noqa: B006
+                w.keep += [inp, store, acc, opts, aux, aux2]
+                w.records[mark] = {"acc_id": id(acc), "opts_id": id(opts), "store_id": id(store), "inp_id": id(inp), "aux_id": id(aux), "aux2_id": id(aux2)}
                 acc.append(mark)
                 opts["k"].append(mark)
                 store.append(mark)
@@ -65,7 +65,8 @@ class World:
                 if bind_at == "inner_renamed":
                     gn = gn.with_inputs(store="book")                # ... and is exposed under another name
                 if shape.get("mapped"):
-                    gn = gn.map_over("inp", "mark", clone=bool(shape.get("clone")))   # every item is a run of the nested graph
+                    cl = shape.get("clone")
+                    gn = gn.map_over("inp", "mark", clone=list(cl) if isinstance(cl, list) else bool(cl))   # every item is a run of the nested graph
                 g = Graph([gn] + ([side] if shape.get("side") else []))
             else:
                 g = Graph([node] + ([side] if shape.get("side") else []))
@@ -187,7 +188,8 @@ def replay_mapped(n, is_async, bind_at, via_runner_map, clone=False):
     w = World(True, False, {"bind_at": bind_at, "mapped": not via_runner_map, "clone": clone})
     marks = list(range(1, n + 1))
     inps = [[] for _ in marks]
-    values = {"inp": inps, "mark": marks}
+    w.aux, w.aux2 = ["aux"], ["aux2"]          # broadcast values owned by the caller
+    values = {"inp": inps, "mark": marks, "aux": w.aux, "aux2": w.aux2}
     runner = AsyncRunner() if is_async else SyncRunner()
     if via_runner_map:
         call = runner.map(w.graph, values, map_over=["inp", "mark"], clone=clone, on_internal_override="ignore")
@@ -216,6 +218,15 @@ def verdicts_mapped(ctx, w, inps, marks, res, wit):
             return ctx.violation("bound-value-copied", wit, f"item {r}: the bound object did not reach the node as the very object that was bound")
         if rec["inp_id"] != id(inp):
             return ctx.violation("provided-value-copied", wit, f"item {r}: the provided item did not reach the node as the caller's object")
+        # broadcast values: cloned per item exactly when the clone setting names them
+        cl = wit.get("clone")
+        for name, obj in (("aux", w.aux), ("aux2", w.aux2)):
+            cloned = cl is True or (isinstance(cl, list) and name in cl)
+            same = rec[name + "_id"] == id(obj)
+            if cloned and same:
+                return ctx.violation("broadcast-value-not-cloned", wit, f"item {r}: {name} is named by clone={cl} but reached the node as the caller's own object")
+            if not cloned and not same:
+                return ctx.violation("broadcast-value-copied", wit, f"item {r}: {name} is not named by clone={cl} but the node received a copy")
     if sorted(w.bound_obj) != marks:
         return ctx.violation("bound-object-not-shared", wit, f"bound object holds {w.bound_obj}, expected {marks}")
     return False
@@ -288,8 +299,8 @@ def run(tier, seed):
         for is_async in (False, True):
             for bind_at in ("outer", "inner", "inner_renamed"):
                 for via in (False, True):
-                    for clone in (False, True):
-                        if clone and bind_at == "outer" and not via:
+                    for clone in (False, True, ["aux2"]):
+                        if clone is True and bind_at == "outer" and not via:
                             continue      # clone=True asks for copies of ALL broadcast values of the mapping node; a value bound on the OUTER graph is one of them
                         wit = {"items": n, "runner": "async" if is_async else "sync", "bind_at": bind_at, "via": "runner.map" if via else "mapping GraphNode", "clone": clone}
                         out = replay_mapped(n, is_async, bind_at, via, clone)
